@@ -594,10 +594,12 @@ func specBoolByte(b bool) int {
 //@   ensures typeis(result, *IntNode) && fresh(result) && r.byteSize == byteSize && len(r.values) == len(values)
 //@   ensures forall i int :: 0 <= i && i < len(values) ==> (isint(values[i]) && r.values[i] == ival(values[i])) || (typeis(values[i], string) && r.values[i] == 0 && has(r.variables, sval(values[i])) && r.variables[sval(values[i])] == i)
 //@   ensures forall s string :: has(r.variables, s) ==> 0 <= r.variables[s] && r.variables[s] < len(values) && typeis(values[r.variables[s]], string) && sval(values[r.variables[s]]) == s
+//@   ensures (forall i int :: 0 <= i && i < len(values) ==> !typeis(values[i], string)) ==> len(r.variables) == 0
 //@   loop 1
 //@     invariant 0 <= rangeindex+1 && rangeindex+1 <= len(values) && len(nodeValues) == rangeindex+1 && fresh(nodeValues) && fresh(nodeVariables)
 //@     invariant forall k int :: 0 <= k && k <= rangeindex ==> (isint(values[k]) && nodeValues[k] == ival(values[k])) || (typeis(values[k], string) && nodeValues[k] == 0 && has(nodeVariables, sval(values[k])) && nodeVariables[sval(values[k])] == k)
 //@     invariant forall s string :: has(nodeVariables, s) ==> 0 <= nodeVariables[s] && nodeVariables[s] <= rangeindex && typeis(values[nodeVariables[s]], string) && sval(values[nodeVariables[s]]) == s
+//@     invariant (forall k int :: 0 <= k && k <= rangeindex ==> !typeis(values[k], string)) ==> len(nodeVariables) == 0
 
 // ---------------------------------------------------------------------------------------------
 // UintNode factory and rep check
@@ -636,10 +638,12 @@ func specBoolByte(b bool) int {
 //@   ensures typeis(result, *UintNode) && fresh(result) && r.byteSize == byteSize && len(r.values) == len(values)
 //@   ensures forall i int :: 0 <= i && i < len(values) ==> (isint(values[i]) && r.values[i] == ival(values[i])) || (typeis(values[i], string) && r.values[i] == 0 && has(r.variables, sval(values[i])) && r.variables[sval(values[i])] == i)
 //@   ensures forall s string :: has(r.variables, s) ==> 0 <= r.variables[s] && r.variables[s] < len(values) && typeis(values[r.variables[s]], string) && sval(values[r.variables[s]]) == s
+//@   ensures (forall i int :: 0 <= i && i < len(values) ==> !typeis(values[i], string)) ==> len(r.variables) == 0
 //@   loop 1
 //@     invariant 0 <= rangeindex+1 && rangeindex+1 <= len(values) && len(nodeValues) == rangeindex+1 && fresh(nodeValues) && fresh(nodeVariables)
 //@     invariant forall k int :: 0 <= k && k <= rangeindex ==> (isint(values[k]) && nodeValues[k] == ival(values[k])) || (typeis(values[k], string) && nodeValues[k] == 0 && has(nodeVariables, sval(values[k])) && nodeVariables[sval(values[k])] == k)
 //@     invariant forall s string :: has(nodeVariables, s) ==> 0 <= nodeVariables[s] && nodeVariables[s] <= rangeindex && typeis(values[nodeVariables[s]], string) && sval(values[nodeVariables[s]]) == s
+//@     invariant (forall k int :: 0 <= k && k <= rangeindex ==> !typeis(values[k], string)) ==> len(nodeVariables) == 0
 
 // ---------------------------------------------------------------------------------------------
 // BinaryNode factory and rep check
@@ -674,10 +678,12 @@ func specBoolByte(b bool) int {
 //@   panics_only_if len(values) > 16777215 || (exists i int :: 0 <= i && i < len(values) && !(typeis(values[i], int) && 0 <= ival(values[i]) && ival(values[i]) < 256))
 //@   ensures typeis(result, *BinaryNode) && fresh(result) && len(r.values) == len(values)
 //@   ensures forall i int :: 0 <= i && i < len(values) ==> (typeis(values[i], int) && r.values[i] == ival(values[i])) || (typeis(values[i], string) && hasprefix(sval(values[i]), "0b") && parse_ok(sval(values[i]), 0, 0, 1) && r.values[i] == parse_val(sval(values[i]), 0, 0, 1)) || (typeis(values[i], string) && !hasprefix(sval(values[i]), "0b") && r.values[i] == 0 && has(r.variables, sval(values[i])) && r.variables[sval(values[i])] == i)
+//@   ensures (forall i int :: 0 <= i && i < len(values) ==> !typeis(values[i], string)) ==> len(r.variables) == 0
 //@   loop 1
 //@     invariant 0 <= rangeindex+1 && rangeindex+1 <= len(values) && len(nodeValues) == rangeindex+1 && fresh(nodeValues) && fresh(nodeVariables)
 //@     invariant forall k int :: 0 <= k && k <= rangeindex ==> (typeis(values[k], int) && nodeValues[k] == ival(values[k])) || (typeis(values[k], string) && hasprefix(sval(values[k]), "0b") && parse_ok(sval(values[k]), 0, 0, 1) && nodeValues[k] == parse_val(sval(values[k]), 0, 0, 1)) || (typeis(values[k], string) && !hasprefix(sval(values[k]), "0b") && nodeValues[k] == 0 && has(nodeVariables, sval(values[k])) && nodeVariables[sval(values[k])] == k)
 //@     invariant forall s string :: has(nodeVariables, s) ==> 0 <= nodeVariables[s] && nodeVariables[s] <= rangeindex && typeis(values[nodeVariables[s]], string) && sval(values[nodeVariables[s]]) == s
+//@     invariant (forall k int :: 0 <= k && k <= rangeindex ==> !typeis(values[k], string)) ==> len(nodeVariables) == 0
 
 // ---------------------------------------------------------------------------------------------
 // BooleanNode factory and rep check
@@ -704,10 +710,12 @@ func specBoolByte(b bool) int {
 //@   panics_only_if len(values) > 16777215 || (exists i int :: 0 <= i && i < len(values) && !typeis(values[i], bool))
 //@   ensures typeis(result, *BooleanNode) && fresh(result) && len(r.values) == len(values)
 //@   ensures forall i int :: 0 <= i && i < len(values) ==> (typeis(values[i], bool) && r.values[i] == bval(values[i])) || (typeis(values[i], string) && !r.values[i] && has(r.variables, sval(values[i])) && r.variables[sval(values[i])] == i)
+//@   ensures (forall i int :: 0 <= i && i < len(values) ==> !typeis(values[i], string)) ==> len(r.variables) == 0
 //@   loop 1
 //@     invariant 0 <= rangeindex+1 && rangeindex+1 <= len(values) && len(nodeValues) == rangeindex+1 && fresh(nodeValues) && fresh(nodeVariables)
 //@     invariant forall k int :: 0 <= k && k <= rangeindex ==> (typeis(values[k], bool) && nodeValues[k] == bval(values[k])) || (typeis(values[k], string) && !nodeValues[k] && has(nodeVariables, sval(values[k])) && nodeVariables[sval(values[k])] == k)
 //@     invariant forall s string :: has(nodeVariables, s) ==> 0 <= nodeVariables[s] && nodeVariables[s] <= rangeindex && typeis(values[nodeVariables[s]], string) && sval(values[nodeVariables[s]]) == s
+//@     invariant (forall k int :: 0 <= k && k <= rangeindex ==> !typeis(values[k], string)) ==> len(nodeVariables) == 0
 
 // ---------------------------------------------------------------------------------------------
 // ASCIINode factories and rep check
@@ -775,10 +783,12 @@ func specBoolByte(b bool) int {
 //@   ensures typeis(result, *FloatNode) && fresh(result) && r.byteSize == byteSize && len(r.values) == len(values)
 //@   ensures forall i int :: 0 <= i && i < len(values) ==> (isint(values[i]) && r.values[i] == float64(ival(values[i]))) || (isfloat(values[i]) && r.values[i] == fval(values[i])) || (typeis(values[i], string) && r.values[i] == 0 && has(r.variables, sval(values[i])) && r.variables[sval(values[i])] == i)
 //@   panics_only_if !okW || len(values)*byteSize > 16777215 || (exists i int :: 0 <= i && i < len(values) && !(isfloat(values[i]) && !isnan(fval(values[i])) && !isinf(fval(values[i])) && fneg(mx) <= fval(values[i]) && fval(values[i]) <= mx))
+//@   ensures (forall i int :: 0 <= i && i < len(values) ==> !typeis(values[i], string)) ==> len(r.variables) == 0
 //@   loop 1
 //@     invariant 0 <= rangeindex+1 && rangeindex+1 <= len(values) && len(nodeValues) == rangeindex+1 && fresh(nodeValues) && fresh(nodeVariables)
 //@     invariant forall k int :: 0 <= k && k <= rangeindex ==> (isint(values[k]) && nodeValues[k] == float64(ival(values[k]))) || (isfloat(values[k]) && nodeValues[k] == fval(values[k])) || (typeis(values[k], string) && nodeValues[k] == 0 && has(nodeVariables, sval(values[k])) && nodeVariables[sval(values[k])] == k)
 //@     invariant forall s string :: has(nodeVariables, s) ==> 0 <= nodeVariables[s] && nodeVariables[s] <= rangeindex && typeis(values[nodeVariables[s]], string) && sval(values[nodeVariables[s]]) == s
+//@     invariant (forall k int :: 0 <= k && k <= rangeindex ==> !typeis(values[k], string)) ==> len(nodeVariables) == 0
 
 // ---------------------------------------------------------------------------------------------
 // ListNode factory, rep check, variable listing
@@ -829,11 +839,13 @@ func specBoolByte(b bool) int {
 //@   ensures typeis(result, *ListNode) && fresh(result) && len(r.values) == len(values)
 //@   ensures forall i int :: 0 <= i && i < len(values) ==> (typeis(values[i], ItemNode) && r.values[i] == values[i]) || (typeis(values[i], string) && typeis(r.values[i], emptyItemNode) && has(r.variables, sval(values[i])) && r.variables[sval(values[i])] == i)
 //@   ensures forall s string :: has(r.variables, s) ==> 0 <= r.variables[s] && r.variables[s] < len(values) && typeis(values[r.variables[s]], string) && sval(values[r.variables[s]]) == s
+//@   ensures (forall i int :: 0 <= i && i < len(values) ==> !typeis(values[i], string)) ==> len(r.variables) == 0
 //@   loop 1
 //@     invariant 0 <= rangeindex+1 && rangeindex+1 <= len(values) && len(nodeValues) == rangeindex+1 && fresh(nodeValues) && fresh(nodeVariables)
 //@     invariant forall k int :: 0 <= k && k <= rangeindex ==> typeis(nodeValues[k], ItemNode)
 //@     invariant forall k int :: 0 <= k && k <= rangeindex ==> (typeis(values[k], ItemNode) && nodeValues[k] == values[k]) || (typeis(values[k], string) && typeis(nodeValues[k], emptyItemNode) && has(nodeVariables, sval(values[k])) && nodeVariables[sval(values[k])] == k)
 //@     invariant forall s string :: has(nodeVariables, s) ==> 0 <= nodeVariables[s] && nodeVariables[s] <= rangeindex && typeis(values[nodeVariables[s]], string) && sval(values[nodeVariables[s]]) == s
+//@     invariant (forall k int :: 0 <= k && k <= rangeindex ==> !typeis(values[k], string)) ==> len(nodeVariables) == 0
 
 //@ iface ItemNode.Variables
 //@   property C16 C11
@@ -849,3 +861,21 @@ func specBoolByte(b bool) int {
 //@ iface ItemNode.Size
 //@   property C16
 //@   ensures result >= -1
+
+//@ func NewHSMSDataMessage
+//@   property C12 C11 C03 C01
+//@   panics_if !(waitBit == 0 || waitBit == 1)
+//@   panics_if sessionID == -1
+//@   panics_if nvars(dataItem) != 0
+//@   panics_if has_space_rune(name) || !specMsgFieldsOK(stream, function, waitBit, sessionID, 4, direction)
+//@   panics_only_if !(waitBit == 0 || waitBit == 1) || sessionID == -1 || dataItem == nil || nvars(dataItem) != 0 || has_space_rune(name) || !specMsgFieldsOK(stream, function, waitBit, sessionID, 4, direction)
+//@   ensures fresh(result) && result.name == name && result.stream == stream && result.function == function
+//@   ensures result.waitBit == waitBit && result.direction == direction && result.dataItem == dataItem && result.sessionID == sessionID
+//@   ensures len(result.systemBytes) == 4 && fresh(result.systemBytes)
+//@   ensures forall k int :: 0 <= k && k < 4 && k < len(systemBytes) ==> result.systemBytes[k] == systemBytes[k]
+//@   ensures forall k int :: 0 <= k && k < 4 && k >= len(systemBytes) ==> result.systemBytes[k] == 0
+//@   loop 1
+//@     invariant 0 <= rangeindex+1 && rangeindex+1 <= len(systemBytes) && rangeindex+1 <= 4
+//@     invariant len(systemBytesCopy) == 4 && fresh(systemBytesCopy)
+//@     invariant forall k int :: 0 <= k && k <= rangeindex ==> systemBytesCopy[k] == systemBytes[k]
+//@     invariant forall k int :: rangeindex < k && k < 4 ==> systemBytesCopy[k] == 0
